@@ -32,6 +32,9 @@ type Group struct {
 	ResetStub      bool
 	Unwind         int
 	Corpus         bool // the package is generated at check time by the corpus pipeline
+	HarnessDir     string // sub-directory of /verif/harness with the harness files (default: Name)
+	Schema         string // corpus schema name (default: Name)
+	Only           string // regexp: only harnesses whose name matches run in this group
 	ExtraRT        string // additional runtime template pair (sym_X / native_X)
 	FmParams       string // protoc-gen-fastmarshal parameters for corpus groups
 }
@@ -61,6 +64,19 @@ func init() {
 		groups[pkg] = &Group{Name: pkg, Corpus: true, Pkg: "./" + pkg, PkgName: pkg, Targets: []string{csprotoPath},
 			Merge: pureMerge, StubPkgs: runtimeStubPkgs, SkipTargetInit: true, ResetStub: true, Unwind: 300, ExtraRT: "pb",
 			FmParams: "paths=source_relative,apiversion=v2"}
+		// generator option variants: the per-message-file template and unsafe string decoding. The field snippets are
+		// shared with the default variant, so only the harnesses that exercise the per-message scaffolding
+		// (all-fields and composite messages) resp. string/bytes decoding run here.
+		pm := *groups[pkg]
+		pm.Name, pm.Pkg, pm.HarnessDir, pm.Schema = pkg+"pm", "./"+pkg+"pm", pkg, pkg
+		pm.FmParams = "paths=source_relative,apiversion=v2,filepermessage=true"
+		pm.Only = `_(All|Msgs|Node|One|Maps|Mix|Req|Marshal_|Unmarshal_)|^H_C0[67]_[ST](Int32|String|Bool|Sfixed64|Enum)`
+		groups[pm.Name] = &pm
+		us := *groups[pkg]
+		us.Name, us.Pkg, us.HarnessDir, us.Schema = pkg+"u", "./"+pkg+"u", pkg, pkg
+		us.FmParams = "paths=source_relative,apiversion=v2,enableunsafedecode=true"
+		us.Only = `^H_C06_([ST](String|Bytes)|One|Maps|Mix|Msgs)`
+		groups[us.Name] = &us
 	}
 }
 
@@ -93,6 +109,10 @@ func init() {
 		regProp(&PropSpec{ID: id, Level: "model_checking", Groups: []string{"p3", "p2"}, QuickTimeout: 600, ThorTimeout: 3000})
 	}
 	props["C10"].Groups = []string{"p3", "p2", "csproto"}
+	for _, id := range []string{"C04", "C05", "C07", "C09", "C17"} {
+		props[id].Groups = []string{"p3", "p2", "p3pm", "p2pm"}
+	}
+	props["C06"].Groups = []string{"p3", "p2", "p3pm", "p2pm", "p3u", "p2u"}
 	props["C08"].Witnesses = 6000 // every accepting path's witness is decoded by the reference runtime as well (differential clause)
 	regProp(&PropSpec{ID: "C13", Level: "model_checking", Groups: []string{"lazyproto"}, QuickTimeout: 600, ThorTimeout: 3000})
 	regProp(&PropSpec{ID: "C15", Level: "other", Groups: []string{"lazyproto"}, QuickTimeout: 600, ThorTimeout: 3000,
